@@ -38,6 +38,18 @@ CLAIMS = {
          "(via C02_parse); C05_meaning for all line lists. Tie: listing of files with/without inserted nasty comment lines."),
    technique="Coq proof (case analysis of the line parser in an arbitrary state; simulation over line meanings) + differential correspondence",
    ref="6 (C05)"),
+ "C07": dict(
+   text=("Theorem C07_roundtrip: for EVERY writable object (the Coq predicate `writable` = DESIGN.md 5.4: delimiter tag =, : or "
+         "space, comment tag # or ;, keys/sections of the grammar, values quoted or plain with indented delimiter-free "
+         "continuation lines, comment texts printable) — whatever the order of its entries (group-less after sectioned, "
+         "re-opened sections) — the bytes the writer model produces are a well-formed conventional file (C07_written_file_is_"
+         "conventional), reading them back with the object's tags succeeds and every section has the same keys in order with "
+         "the same values. Composition of write_is_render, ast_of_wf, ast_of_meaning and C02_parse. C07_int_text_writable: "
+         "the integer setters' texts are in the domain. Tie: setter histories / parsed files, written and re-read by the "
+         "implementation; writability decided by the extracted predicate. Comments of single-line entries: checked in the "
+         "runs (model = implementation on the re-read dump), no separate theorem."),
+   technique="Coq proof (writer output = rendering of an AST; AST well-formed; meaning preserved; composed with the parser theorem) + differential correspondence",
+   ref="5.4, 6 (C07)"),
  "C08": dict(
    text=("Theorems C08_int32/int64/uint32/uint64: for EVERY value of the type, the typed setter followed by the matching getter "
          "returns the value (decimal printing and strtol-family parsing are modelled and proved inverse, all sizes, by induction "
@@ -58,6 +70,16 @@ CLAIMS = {
          "checked against an exact rational model on sampled literals)."),
    technique="Coq proof over a model of strtol/strtoul base 0 + differential correspondence with independent Python oracle",
    ref="6 (C09)"),
+ "C13": dict(
+   text=("Theorems C13_line_stops / C13_error_at: after ANY conventional prefix (any length, any delimiter class), a malformed "
+         "line of each kind (no closing bracket, text after bracket, empty section name, key+text without delimiter under a "
+         "non-blank delimiter set and not in continuation position) makes the model of read_file fail with exactly that code, "
+         "the reported line is the 1-based number of that line, whatever follows; C13_no_partial; C13_enum_matches_model, "
+         "C13_messages, C13_errstring over the enum and message table REGENERATED from libeconf.h / econf_error.c on every "
+         "run. Layered reads (n-th drop-in malformed) are covered by the correspondence runs of C01/C06 (model of the layered "
+         "reader), no separate theorem yet."),
+   technique="Coq proof (line lemmas + induction over the prefix) + generated source tables + differential correspondence",
+   ref="6 (C13)"),
  "C10": dict(
    text=("Theorems C10_readonly / C10_sequences / C10_later_results / C10_merge_inputs: in the model every query (failing ones "
          "included), any finite sequence of them, and a merge leave the object(s) unchanged, for all objects. The model is tied "
